@@ -235,6 +235,16 @@ def main():
     except common.Inexact as e:
         print(f"machinery broken: harness produced a number outside the exact domain: {e}")
         sys.exit(2)
+    except Exception:   # noqa: BLE001
+        tb = traceback.format_exc()
+        if os.path.join(REPO, "nasim") + os.sep not in tb:
+            raise
+        # the implementation itself raised while the check was exercising it
+        outcome = dict(violations=[dict(
+            kind="implementation-raised", property=pid, failing_input_found=False,
+            broken=f"correspondence of {pid} could not be executed: the implementation raised",
+            what="an exception escaped from the implementation while the check was driving it with valid inputs",
+            traceback=tb[-2500:])], evaluations=1, distinct_nontrivial=0, samples=[dict(traceback=tb[-400:])])
 
     # ---- Level-2 tie ----
     l2 = level2(pid, log)
@@ -290,6 +300,7 @@ def main():
         json.dump(jsonable(ev), f, indent=1, default=str)
 
     if violations:
+        violations.sort(key=lambda v: not v.get("failing_input_found"))   # concrete failing inputs first
         for v in violations[:3]:
             path = write_replay(pid, v)
             tail = "" if v.get("failing_input_found") else " no-failing-input-found"
